@@ -37,7 +37,7 @@ BUDGET = {"quick": dict(examples=480, seconds=150, workers=16), "thorough": dict
 
 # classes with a reported defect that are excluded by construction (counted in rec.excluded); see the C07 report
 # (signature suffixes as returned by _klass; the full signature is "sensor:<TYPE><suffix>")
-KNOWN_EXCLUDED = {":camera", ":static-body", ":jnt-ten-id-alias", ":capsule-capsule", ":mesh-plane", ":sorted-direction", ":cutoff"}
+KNOWN_EXCLUDED = {":camera"}  # camera rangefinders are rejected by put_model (NotImplementedError): not generated
 
 S = mujoco.mjtSensor
 O = mujoco.mjtObj
